@@ -233,12 +233,12 @@ POST_FULL_CITATION_REGEX = rf"""
             # pin cite with comma and extra:
             {PIN_CITE_REGEX}?
             ,?\ ?
-            (?P<extra>[^(;]*)
+            (?P<extra>[^(\[;]*)
         )
         # content within year paren:
         [\(\[](?:
             # court and year:
-            (?P<court>[^)]+)\ {YEAR_REGEX}|
+            (?P<court>[^)\]]+)\ {YEAR_REGEX}|
             # just year:
             {YEAR_REGEX}
         )[\)\]]
